@@ -94,8 +94,8 @@ def run(ctx):
                            policy=REQUESTED, label="requested-replies-only")
     buscheck.run_histories(ctx, n // 2, 80, oracle, gen_kw={"weights": W, "max_conns": 4}, policy=REQUESTED,
                            limits={"replies": 2}, seed_salt=21, label="replies-limit-2")
-    buscheck.run_histories(ctx, n // 3 if ctx.quick() else n // 6, 35, oracle, gen_kw={"weights": dict(W, sleep=2), "max_conns": 4},
-                           policy=REQUESTED, limits={"reply_timeout": 300}, seed_salt=22, label="reply-timeout-300ms")
+    # (a profile that let a real reply_timeout of 300 ms pass by sleeping was dropped: on a busy machine a history took longer than
+    #  the timeout and the check raised false alarms; the virtual-clock profile below covers timeouts, whole and partial)
     # callees and callers that do not read: a call refused because the callee's queue is full opens no slot
     buscheck.run_histories(ctx, n // 2, 80, oracle, gen_kw={"weights": dict(W, stall=6, unstall=5), "max_conns": 4, "no_eavesdrop": True},
                            policy=REQUESTED, limits={"outgoing": 20000}, seed_salt=23, label="slow-readers")
